@@ -75,6 +75,7 @@ def do_check(prop, adapter, tier, seed, t0):
     known = common.load_known_findings()
     # 1. Lean obligations
     audit = lean_audit.audit(prop, tier)
+    harvested = common.harvest(prop)
     # 2./3. correspondence + oracles on corpus and generated cases
     res = adapter.run(prop, tier, seed)
     findings = res.get('findings', [])          # failing inputs on the implementation (oracle)
@@ -131,6 +132,9 @@ def do_check(prop, adapter, tier, seed, t0):
     cov = dict(obligations=audit['obligations'], discharged=audit['discharged'], checker_cmd=audit['checker_cmd'],
                trusted_base=audit['trusted_base'], theorems=audit['theorems'], axioms=audit['axioms'])
     cov.update(res.get('coverage', {}))
+    cov['constants_harvested_from_changed_source'] = [float(c) for c in harvested]
+    if audit.get('structural_tie') is not None:
+        cov['structural_tie'] = audit['structural_tie']
     cov['correspondence_divergences'] = len(mismatches)
     cov['oracle_failures'] = len(findings)
     cov['known_findings_redemonstrated'] = len(seen_known)
